@@ -21,9 +21,10 @@
                    action sequence (from_node = actions, to_node = roll(actions, -1): NOT symmetrised);
      Final         run() returns the stored tours as a matrix and the stored rewards.
 
-   QUIRK AllEqual: when all ants of an instance obtain the same reward, _reward_map evaluates 0 / 0.  The specification
-   defines the deposit of such an iteration as TieDep * Q per ant (TieDep = 0: nothing is deposited, the matrix only
-   evaporates); what the pinned code does instead (NaN) is reported by the harness.
+   QUIRK AllEqual: when all ants of an instance obtain the same reward, (r_k - m) / (M - m) is 0 / 0.  The specification
+   defines the deposit of such an iteration as TieDep * Q per ant; TieDep = 0 (nothing is deposited, the matrix only
+   evaporates) is what the code does since the fix "ant system deposits nothing when all ants of an instance tie"
+   (`(M - m).clamp_min(1e-10)`; before it the matrix received NaN and the next iteration's sampler raised).
 
    Rewards are the integers -length; pheromone values are exact rationals (Rat.tla).  The history variable `hist`
    keeps, per iteration, the tours as sampled (s) and as used after local search (u); all invariants are recomputed
